@@ -198,6 +198,63 @@ class Program:
         r = f.root_fn()
         return r.path not in Program._REF
 
+    def uses_of(self, f):
+        """root functions that call f or mention it as a function item (`.map(helper::<O>)`)"""
+        if not hasattr(self, "_users"):
+            users = defaultdict(set)
+            for g in self.fns.values():
+                if not g.body:
+                    continue
+                r = g.root_fn().id
+                for b in g.body["blocks"]:
+                    ops = []
+                    for s_ in b["s"]:
+                        if s_["k"] == "assign":
+                            rv = s_["rv"]
+                            ops += [rv[k] for k in ("a", "b") if k in rv] + list(rv.get("ops", []) or [])
+                    t = b["t"]
+                    if t and t["k"] == "call":
+                        ops += list(t["args"])
+                        p_ = (t["f"].get("resolved") or t["f"]).get("path", "") or ""
+                        for h in self.by_path.get(p_, []):
+                            users[h.root_fn().id].add(r)
+                    for o in ops:
+                        c = o.get("const") if isinstance(o, dict) else None
+                        ty = c.get("ty") if isinstance(c, dict) else None
+                        if isinstance(ty, dict) and "fndef" in ty:
+                            for h in self.by_path.get(ty["fndef"], []):
+                                users[h.root_fn().id].add(r)
+            self._users = users
+        return self._users.get(f.root_fn().id, set())
+
+    def owners(self, f, _seen=()):
+        """the reference (not new) root functions on whose behalf f runs: f itself if it exists in the reference tree,
+        otherwise the owners of everything that uses it (a helper nobody uses owns itself)"""
+        r = f.root_fn()
+        if not self.is_new(r) or r.id in _seen:
+            return {r.id}
+        us = self.uses_of(r) - {r.id}
+        if not us:
+            return {r.id}
+        out = set()
+        for u in us:
+            out |= self.owners(self.fns[u], _seen + (r.id,))
+        return out
+
+    def new_helpers_of(self, f):
+        """helpers new to the tree that f (or one of its closures / such helpers) calls or mentions, transitively"""
+        fam, out, i = [f], [], 0
+        while i < len(fam):
+            fam.extend(self.closures_of.get(fam[i].id, []))
+            i += 1
+        seen = {x.id for x in fam}
+        for g in self.fns.values():
+            if g.body and g.kind in ("fn", "assoc_fn") and self.is_new(g) and g.id not in seen:
+                if any(self.fns[o].id in seen or self.fns[o].root_fn().id in {x.root_fn().id for x in fam} for o in self.owners(g) if o in self.fns) and \
+                        (self.uses_of(g) & {x.root_fn().id for x in fam} or any(self.uses_of(g) & {h.id for h in out})):
+                    out.append(g)
+        return out
+
     # ---- lookups -------------------------------------------------------------------
     def fn_by_path(self, path):
         """Unique fn with this def path string; fail closed if missing/ambiguous."""
